@@ -636,8 +636,12 @@ Strengthening (2026-10-04, evening): two input classes added, both judged by the
  positional argument fits the parameter at its own place, so the guide's order rule alone certifies nothing; a non-terminating
  expansion needs ~10 s CPU to exhaust an 8 MB stack (quadratic) but 0.1 s for 1 MB: class "macro" runs with `ulimit -s 1024`,
  and a crash site 40 frames deep with one function >= 6 times is keyed "recursion:<function>".
- Unchanged tree after the extension: quick held with VERIF_SEED default, 1, 2, 3 (49 879 runs judged, 10 KNOWN-FINDING lines),
- 240 s wall at load 65-90 (1 280 CPU-seconds; the two new classes are 9 102 runs, about 400 CPU-seconds).
+ Unchanged tree after the extension: quick held with VERIF_SEED default, 1, 2, 3 (47 724 runs judged, of which 5 125 macro and
+ 1 822 call texts; 10 KNOWN-FINDING lines), 253 s wall at load 55 (the two new classes are compiled and judged while the TLC
+ run of Mutants, which ends last, is still going; they cost about 60 s of wall under that load, 25 s on an idle machine).
+ Thorough (new classes only, C07_ONLY=macro,call): 77 180 macro + 31 477 call texts judged, 1 939 call controls all compile,
+ only the two findings above rejected; 24 min at load 65.  A finding of the new classes is keyed by the TLC-derived feature
+ param-applied (macro) / by the crash site (call).
 
 Model corrections made during development (not findings):
  * a corpus text with an `#if 0 ... #endif` region: deleting a bracket inside the skipped region was certified "brackets".  Scan.tla
